@@ -577,7 +577,7 @@ def replay(case, tol):
         print("the implementation raised:", r["raises"])
         sys.exit(1)
     print("discrepancy between the moved problem's solution (transformed back) and the original solution: %.3e (tolerance %.1e)" % (r["err"], tol))
-    sys.exit(1 if r["err"] > tol else 0)
+    sys.exit(0 if r["err"] <= tol else 1)          # NaN (singular moved problem) counts as a failure
 
 
 if __name__ == "__main__":
